@@ -81,6 +81,12 @@ CHECKS = {
             'line, call results and per-call output are compared.',
             'In-process exec is the reference; programs are limited to the CS1 subset G-CS1 builds; prompt echoes are '
             'removed using marked prompts and a calibrated echo suffix.', '3/C06'),
+    'C15': ('Hypothesis rule-based state machine over one sandbox (run/call/evaluate of I/O scripts whose output is known '
+            'from the op list, clear_output, set_input/queue_input/clear_input in every argument form) against a raw-string / '
+            'line-list / FIFO-queue reference model checked after every step',
+            'About 2.5k histories of up to 15 steps per quick run (80k thorough); invariants on raw output, line view, queue, '
+            'per-execution record, values returned by input().',
+            'Prompt echo suffix and exhausted-queue default are calibrated on a probe; stderr is excluded.', '3/C15'),
 }
 
 NOT_YET = {}
